@@ -571,7 +571,16 @@ fn speak(mathml: Element, nav_node_id: String, full_read: bool) -> Result<String
             result => result,
         };
     } else {
-        return crate::speech::overview_mathml(mathml, &nav_node_id);
+        return match crate::speech::overview_mathml(mathml, &nav_node_id) {
+            Err(e) if e.to_string() == crate::speech::NAV_NODE_SPEECH_NOT_FOUND => {
+                // the overview of a fraction, root, ... doesn't descend to its children: describe the nav node by itself
+                match get_node_by_id(mathml, &nav_node_id) {
+                    Some(nav_node) => crate::speech::overview_mathml(nav_node, "").or(Err(e)),
+                    None => Err(e),
+                }
+            },
+            result => result,
+        };
     }
 }
 
